@@ -279,7 +279,7 @@ func (l *memListener) Addr() net.Addr { return &net.UnixAddr{Name: "mem", Net: "
 // to be at that moment: blocked in Accept, between two Accepts, or not yet started - and the
 // listener is closed; every accepted connection is served and finished first.
 func c20NetAccepter(t *testing.T, res *Result) {
-	for _, when := range []string{"in-accept", "between-accepts", "before-start", "after-two"} {
+	for _, when := range []string{"in-accept", "between-accepts", "before-start", "after-two", "pending-callback"} {
 		synctest.Test(t, func(t *testing.T) {
 			lst := newMemListener()
 			ctx, cancel := context.WithCancel(context.Background())
@@ -308,9 +308,26 @@ func c20NetAccepter(t *testing.T, res *Result) {
 				connect()
 				connect()
 			}
+			// base context of the request handlers: ended at the very end, so that a handler left
+			// hanging by a server that failed to stop it does not wedge the bubble
+			base, endBase := context.WithCancel(context.Background())
+			defer endBase()
+			var lopts *server.LoopOptions
+			if when == "pending-callback" {
+				lopts = &server.LoopOptions{ServerOptions: &jrpc2.ServerOptions{AllowPush: true, NewContext: func() context.Context { return base }}}
+				connect()
+			}
 			done := make(chan error, 1)
-			go func() { done <- server.Loop(ctx, server.NetAccepter(lst, channel.Line), svc, nil) }()
+			go func() { done <- server.Loop(ctx, server.NetAccepter(lst, channel.Line), svc, lopts) }()
 			synctest.Wait()
+			if when == "pending-callback" {
+				// a notification whose handler issues a callback and waits for the answer, which never comes
+				peers[0].Write([]byte(`{"jsonrpc":"2.0","method":"cb"}` + "\n"))
+				synctest.Wait()
+				go io.Copy(io.Discard, peers[0]) // the pushed request is read, never answered
+				synctest.Wait()
+				cancel()
+			}
 			if when == "in-accept" || when == "after-two" {
 				cancel()
 			}
@@ -330,6 +347,8 @@ func c20NetAccepter(t *testing.T, res *Result) {
 			default:
 				res.Violatef("Loop over NetAccepter never returned after the context ended", in, "context ended %s", when)
 				lst.Close()
+				endBase()
+				synctest.Wait()
 			}
 			lst.mu.Lock()
 			nc := lst.nclosed
@@ -349,7 +368,11 @@ func c20NetAccepter(t *testing.T, res *Result) {
 type c20Svc struct{ finish func() }
 
 func (s c20Svc) Assigner() (jrpc2.Assigner, error) {
-	return handler.Map{"m": handler.New(func(context.Context) (int, error) { return 1, nil })}, nil
+	return handler.Map{"m": handler.New(func(context.Context) (int, error) { return 1, nil }),
+		"cb": func(ctx context.Context, req *jrpc2.Request) (any, error) {
+			jrpc2.ServerFromContext(ctx).Callback(ctx, "question", nil) // returns when answered or when the server stops
+			return nil, nil
+		}}, nil
 }
 func (s c20Svc) Finish(jrpc2.Assigner, jrpc2.ServerStatus) { s.finish() }
 
